@@ -40,6 +40,15 @@ def build(cfg):
     intrs = []
     rejected = None
     for k, ic in enumerate(cfg["intrs"]):
+        if cfg.get("early_elab") == k:
+            # elaborated once (say, simulated on its own) before the remaining initiators are added
+            from amaranth.hdl import Fragment
+            Fragment.get(arb, None)
+        if cfg.get("dup_add") == k and intrs:
+            try:
+                arb.add(intrs[0])          # the same initiator offered again: whatever the answer, no new participant
+            except (ValueError, TypeError):
+                pass
         if cfg.get("reject_before") == k:
             # an incompatible initiator is offered in between and must be refused without trace
             bad = wishbone.Interface(addr_width=aw, data_width=dw, granularity=gran,
@@ -207,6 +216,9 @@ def intr_features(af, policy, k):
         return FEATS
     if policy == "minimal":
         return tuple(req)
+    if policy in ("even", "odd"):
+        # every optional line present on every other initiator only (a full-featured initiator next to a bare one, both orders)
+        return FEATS if (k % 2 == 0) == (policy == "even") else tuple(req)
     # mixed: even initiators have everything, odd ones only what is required (+ stall on odd)
     return FEATS if k % 2 == 0 else tuple(req) + (("stall",) if "stall" not in req else ())
 
@@ -244,6 +256,17 @@ def configs(tier):
     add(dict(dw=8, gran=8, afeat=("lock", "stall"), intrs=[dict(gran=8, feat=("lock", "stall")) for _ in range(3)], elab_twice=True))
     for af in (("lock",), FEATS, ("err", "stall", "cti")):
         add(dict(dw=8, gran=8, afeat=af, intrs=[dict(gran=8, feat=intr_features(af, "mixed", k)) for k in range(2)], feat_enum=True))
+    # a full-featured initiator next to a bare one, in both orders
+    for af in ((), ("stall",), ("lock", "stall"), ("err", "rty", "stall"), FEATS):
+        for policy in ("even", "odd"):
+            for n in (2, 3):
+                add(dict(dw=8, gran=8, afeat=af, intrs=[dict(gran=8, feat=intr_features(af, policy, k)) for k in range(n)]))
+    # elaborated once before all initiators are there (1->2, 2->3, 1->3 ... cross a power of two)
+    for af in ((), ("lock", "stall")):
+        for n, pos in ((2, 1), (3, 2), (3, 1), (5, 2), (2, 0)):
+            if quick and n == 5 and af:
+                continue
+            add(dict(dw=8, gran=8, afeat=af, intrs=[dict(gran=8, feat=af) for _ in range(n)], early_elab=pos, **(dict(many=True) if n >= 5 else {})))
     # a refused add() in the middle of the history must leave no trace
     for af in (("err",), ("err", "rty", "lock")):
         for n, pos in ((2, 1), (3, 1), (3, 2)):
